@@ -48,6 +48,30 @@ def _blocks(node):
 
 
 # ------------------------------------------------------------------------------------------- D1 match
+LIST_ATTRS = set()   # attribute names every store of which (in the module) is a list display / comprehension / list(..)
+
+
+def collect_list_attrs(tree):
+    good, bad = set(), set()
+    for n in ast.walk(tree):
+        if isinstance(n, (ast.Assign, ast.AnnAssign, ast.AugAssign)):
+            tgts = n.targets if isinstance(n, ast.Assign) else [n.target]
+            for t in tgts:
+                for x in (t.elts if isinstance(t, (ast.Tuple, ast.List)) else [t]):
+                    if isinstance(x, ast.Attribute) and isinstance(x.ctx, ast.Store):
+                        v = getattr(n, "value", None)
+                        if isinstance(n, ast.Assign) and not isinstance(t, (ast.Tuple, ast.List)) and (isinstance(v, (ast.List, ast.ListComp)) or (isinstance(v, ast.Call) and ast.unparse(v.func) == "list")):
+                            good.add(x.attr)
+                        elif isinstance(n, ast.AnnAssign) and v is None:
+                            pass
+                        elif isinstance(n, ast.AugAssign) and isinstance(n.op, ast.Add):
+                            pass
+                        else:
+                            bad.add(x.attr)
+    LIST_ATTRS.clear()
+    LIST_ATTRS.update(good - bad)
+
+
 def _pattern(p, subj):
     """(test expr or None when always true, [(name, expr)] bindings) or None when unsupported"""
     if isinstance(p, ast.MatchAs):
@@ -72,6 +96,28 @@ def _pattern(p, subj):
                 return None
             tests.append(ast.Compare(left=ast.Attribute(value=copy.deepcopy(subj), attr=attr, ctx=ast.Load()), ops=[ast.Eq()], comparators=[val]))
         return (tests[0] if len(tests) == 1 else ast.BoolOp(op=ast.And(), values=tests)), []
+    if isinstance(p, ast.MatchSequence) and isinstance(subj, ast.Attribute) and isinstance(subj.value, ast.Name) and subj.attr in LIST_ATTRS:
+        # the subject is an attribute the module only ever binds to lists: the pattern is a statement about its length
+        stars = [q for q in p.patterns if isinstance(q, ast.MatchStar)]
+        if len(stars) > 1 or any(q.name is not None for q in stars):
+            return None
+        fixed = [q for q in p.patterns if not isinstance(q, ast.MatchStar)]
+        if not all(isinstance(q, ast.MatchAs) and q.pattern is None for q in fixed):
+            return None
+        k = len(fixed)
+        ln = ast.Call(func=ast.Name(id="len", ctx=ast.Load()), args=[copy.deepcopy(subj)], keywords=[])
+        if stars:
+            test = None if k == 0 else (copy.deepcopy(subj) if k == 1 else ast.Compare(left=ln, ops=[ast.GtE()], comparators=[ast.Constant(value=k)]))
+        else:
+            test = ast.UnaryOp(op=ast.Not(), operand=copy.deepcopy(subj)) if k == 0 else ast.Compare(left=ln, ops=[ast.Eq()], comparators=[ast.Constant(value=k)])
+        binds = []
+        si = p.patterns.index(stars[0]) if stars else len(p.patterns)
+        for i, q in enumerate(p.patterns):
+            if isinstance(q, ast.MatchStar) or q.name is None:
+                continue
+            idx = i if i < si else -(len(p.patterns) - i)
+            binds.append((q.name, ast.Subscript(value=copy.deepcopy(subj), slice=ast.Constant(value=idx), ctx=ast.Load())))
+        return test, binds
     if isinstance(p, ast.MatchValue):
         return ast.Compare(left=copy.deepcopy(subj), ops=[ast.Eq()], comparators=[p.value]), []
     if isinstance(p, ast.MatchSingleton):
@@ -119,6 +165,18 @@ class MatchToIf(ast.NodeTransformer):
 
 
 # ------------------------------------------------------------------------------------------- D2 walrus
+# constructors of immutable helper objects: evaluating them has no effect and no order
+_CONST_CTORS = {"attrgetter", "operator.attrgetter", "itemgetter", "operator.itemgetter", "partial", "functools.partial", "np.dtype", "numpy.dtype", "struct.Struct", "Struct",
+                "slice", "frozenset"}
+def _walk_evaluated(e):
+    """sub-expressions that are evaluated when e is (the body of a lambda is not)"""
+    yield e
+    if isinstance(e, ast.Lambda):
+        return
+    for c in ast.iter_child_nodes(e):
+        yield from _walk_evaluated(c)
+
+
 PURE_FUNCS = {"len", "isinstance", "range", "enumerate", "int", "abs", "tuple", "hasattr", "bool", "str", "float", "type", "min", "max"}
 
 
@@ -337,6 +395,7 @@ class WhileToFor:
 
 # ------------------------------------------------------------------------------------------- D5 / D6 / D7 / D8 expression level
 _SEEK = {"SEEK_SET": 0, "SEEK_CUR": 1, "SEEK_END": 2}
+OPERATOR_NAMES = {}   # local name -> function of the operator module it was imported as (`from operator import ne`)
 
 
 class Desugar(ast.NodeTransformer):
@@ -379,6 +438,14 @@ class Desugar(ast.NodeTransformer):
             n = _struct_size(node.value.args[0].value)
             if n is not None:
                 return ast.copy_location(ast.Constant(value=n), node)
+        return node
+
+    def visit_BinOp(self, node):
+        self.generic_visit(node)
+        # (a, b) + (c,)  ->  (a, b, c)      [a] + [b] -> [a, b]
+        if isinstance(node.op, ast.Add) and type(node.left) is type(node.right) and isinstance(node.left, (ast.Tuple, ast.List)) \
+                and not any(isinstance(e, ast.Starred) for e in node.left.elts + node.right.elts):
+            return ast.copy_location(type(node.left)(elts=node.left.elts + node.right.elts, ctx=ast.Load()), node)
         return node
 
     def visit_DictComp(self, node):
@@ -433,8 +500,12 @@ class Desugar(ast.NodeTransformer):
                 return self.visit_Call(ast.copy_location(ast.Call(func=inner.args[0], args=list(inner.args[1:]) + list(node.args), keywords=kws), node))
         # attrgetter("a")(x)  ->  x.a ;  itemgetter(k)(x) -> x[k]
         if isinstance(node.func, ast.Call) and ast.unparse(node.func.func) in ("attrgetter", "operator.attrgetter") and len(node.func.args) == 1 \
-                and isinstance(node.func.args[0], ast.Constant) and isinstance(node.func.args[0].value, str) and node.func.args[0].value.isidentifier() and len(node.args) == 1 and not node.keywords:
-            return ast.copy_location(ast.Attribute(value=node.args[0], attr=node.func.args[0].value, ctx=ast.Load()), node)
+                and isinstance(node.func.args[0], ast.Constant) and isinstance(node.func.args[0].value, str) and all(p_.isidentifier() for p_ in node.func.args[0].value.split(".")) \
+                and len(node.args) == 1 and not node.keywords:
+            out = node.args[0]
+            for p_ in node.func.args[0].value.split("."):    # attrgetter("a.b")(x) is x.a.b
+                out = ast.Attribute(value=out, attr=p_, ctx=ast.Load())
+            return ast.copy_location(out, node)
         if isinstance(node.func, ast.Call) and ast.unparse(node.func.func) in ("itemgetter", "operator.itemgetter") and len(node.func.args) == 1 and len(node.args) == 1 and not node.keywords:
             return ast.copy_location(ast.Subscript(value=node.args[0], slice=node.func.args[0], ctx=ast.Load()), node)
         # map(F, X) -> (F(v) for v in X) ;  map(F, repeat(x, n)) -> (F(x) for _ in range(n)) ;  filter(lambda v: C, X) -> (v for v in X if C)
@@ -448,13 +519,34 @@ class Desugar(ast.NodeTransformer):
             elt = ast.Call(func=f, args=[ast.Name(id=v, ctx=ast.Load())], keywords=[])
             elt = self.visit_Call(elt) if isinstance(f, ast.Call) else elt
             return ast.copy_location(ast.GeneratorExp(elt=elt, generators=[ast.comprehension(target=ast.Name(id=v, ctx=ast.Store()), iter=xs, ifs=[], is_async=0)]), node)
+        if fn in ("starmap", "itertools.starmap") and len(node.args) == 2 and not node.keywords and isinstance(node.args[0], (ast.Name, ast.Attribute)):
+            f, xs = node.args
+            if isinstance(xs, ast.Call) and ast.unparse(xs.func) in ("repeat", "itertools.repeat") and len(xs.args) == 2 and isinstance(xs.args[0], (ast.Tuple, ast.List)) \
+                    and all(isinstance(e, (ast.Name, ast.Constant)) for e in xs.args[0].elts):
+                elt = ast.Call(func=f, args=[copy.deepcopy(e) for e in xs.args[0].elts], keywords=[])
+                rng = ast.Call(func=ast.Name(id="range", ctx=ast.Load()), args=[xs.args[1]], keywords=[])
+                return ast.copy_location(ast.GeneratorExp(elt=elt, generators=[ast.comprehension(target=ast.Name(id="_", ctx=ast.Store()), iter=rng, ifs=[], is_async=0)]), node)
+        # operator.eq(a, b) / ne / lt / le / gt / ge / is_ / is_not / contains  ->  the comparison
+        _ops = {"eq": ast.Eq, "ne": ast.NotEq, "lt": ast.Lt, "le": ast.LtE, "gt": ast.Gt, "ge": ast.GtE, "is_": ast.Is, "is_not": ast.IsNot}
+        if fn.startswith("operator.") and fn.split(".", 1)[1] in _ops and len(node.args) == 2 and not node.keywords and not any(isinstance(a, ast.Starred) for a in node.args):
+            return ast.copy_location(ast.Compare(left=node.args[0], ops=[_ops[fn.split(".", 1)[1]]()], comparators=[node.args[1]]), node)
+        if fn in OPERATOR_NAMES and OPERATOR_NAMES[fn] in _ops and len(node.args) == 2 and not node.keywords and not any(isinstance(a, ast.Starred) for a in node.args):
+            return ast.copy_location(ast.Compare(left=node.args[0], ops=[_ops[OPERATOR_NAMES[fn]]()], comparators=[node.args[1]]), node)
         if fn == "filter" and len(node.args) == 2 and isinstance(node.args[0], ast.Lambda) and len(node.args[0].args.args) == 1 and not node.args[0].args.defaults:
             lam, xs = node.args
             v = lam.args.args[0].arg
             return ast.copy_location(ast.GeneratorExp(elt=ast.Name(id=v, ctx=ast.Load()), generators=[ast.comprehension(target=ast.Name(id=v, ctx=ast.Store()), iter=xs, ifs=[lam.body], is_async=0)]), node)
         # list(<generator>) -> [..]
         if fn == "list" and len(node.args) == 1 and not node.keywords and isinstance(node.args[0], ast.GeneratorExp):
-            return ast.copy_location(ast.ListComp(elt=node.args[0].elt, generators=node.args[0].generators), node)
+            return ast.copy_location(self.visit_ListComp(ast.ListComp(elt=node.args[0].elt, generators=node.args[0].generators)), node)
+        # tuple(E for v in (a, b, c)) -> (E[a], E[b], E[c])
+        if fn == "tuple" and len(node.args) == 1 and not node.keywords and isinstance(node.args[0], (ast.GeneratorExp, ast.ListComp)) and len(node.args[0].generators) == 1:
+            g = node.args[0].generators[0]
+            if not g.ifs and isinstance(g.iter, (ast.Tuple, ast.List)) and 0 < len(g.iter.elts) <= 8 and isinstance(g.target, ast.Name) \
+                    and not any(isinstance(e, ast.Starred) for e in g.iter.elts):
+                elts = [_subst(node.args[0].elt, {g.target.id: e}) for e in g.iter.elts]
+                elts = [self.visit(e) for e in elts]
+                return ast.copy_location(ast.Tuple(elts=elts, ctx=ast.Load()), node)
         # struct.Struct(F).pack(a) / .unpack(d) / .unpack_from -> struct.pack(F, a) ...
         if isinstance(node.func, ast.Attribute) and node.func.attr in ("pack", "unpack") and isinstance(node.func.value, ast.Call) \
                 and ast.unparse(node.func.value.func) in ("struct.Struct", "Struct") and len(node.func.value.args) == 1:
@@ -491,6 +583,15 @@ class Desugar(ast.NodeTransformer):
                 if not g.ifs and isinstance(g.iter, (ast.Tuple, ast.List)) and 0 < len(g.iter.elts) <= 8 and isinstance(g.target, ast.Name) \
                         and not any(isinstance(e, ast.Starred) for e in g.iter.elts):
                     a.value = ast.copy_location(ast.List(elts=[_subst(a.value.elt, {g.target.id: e}) for e in g.iter.elts], ctx=ast.Load()), a.value)
+        # f(*((x,) * 3))  ->  f(x, x, x)        (x a name or literal; K <= 8)
+        for a in node.args:
+            if isinstance(a, ast.Starred) and isinstance(a.value, ast.BinOp) and isinstance(a.value.op, ast.Mult):
+                seq, k = a.value.left, a.value.right
+                if isinstance(seq, ast.Constant):
+                    seq, k = k, seq
+                if isinstance(seq, (ast.Tuple, ast.List)) and isinstance(k, ast.Constant) and isinstance(k.value, int) and 0 <= k.value <= 8 \
+                        and all(isinstance(e, (ast.Name, ast.Constant)) for e in seq.elts):
+                    a.value = ast.copy_location(ast.Tuple(elts=[copy.deepcopy(e) for _ in range(k.value) for e in seq.elts], ctx=ast.Load()), a.value)
         # f(*[a, b])  ->  f(a, b)
         if any(isinstance(a, ast.Starred) and isinstance(a.value, (ast.List, ast.Tuple)) for a in node.args):
             args = []
@@ -539,7 +640,8 @@ class Desugar(ast.NodeTransformer):
             return pre + [node]
         # xs = [f(), g()]  ->  _x0 = f(); _x1 = g(); xs = [_x0, _x1]     (elements evaluated in the same order, then named)
         if len(node.targets) == 1 and isinstance(node.targets[0], ast.Name) and isinstance(node.value, (ast.List, ast.Tuple)) and 0 < len(node.value.elts) <= 8 \
-                and any(isinstance(x, ast.Call) for e in node.value.elts for x in ast.walk(e)) and not any(isinstance(e, ast.Starred) for e in node.value.elts):
+                and any(isinstance(x, ast.Call) and ast.unparse(x.func) not in _CONST_CTORS for e in node.value.elts for x in _walk_evaluated(e)) \
+                and not any(isinstance(e, ast.Starred) for e in node.value.elts):
             pre, elts = [], []
             k = next(_counter)
             for i, e in enumerate(node.value.elts):
@@ -547,6 +649,18 @@ class Desugar(ast.NodeTransformer):
                 pre.append(ast.copy_location(ast.Assign(targets=[ast.Name(id=nm, ctx=ast.Store())], value=e, lineno=node.lineno), node))
                 elts.append(ast.Name(id=nm, ctx=ast.Load()))
             node.value = type(node.value)(elts=elts, ctx=ast.Load())
+            return pre + [node]
+        # d = {"a": f(), "b": g()}  ->  _d_a = f(); _d_b = g(); d = {"a": _d_a, "b": _d_b}     (string keys; values in order, then named)
+        if len(node.targets) == 1 and isinstance(node.targets[0], ast.Name) and isinstance(node.value, ast.Dict) and 0 < len(node.value.keys) <= 8 \
+                and all(isinstance(k_, ast.Constant) and isinstance(k_.value, str) and k_.value.isidentifier() for k_ in node.value.keys) \
+                and any(isinstance(x, ast.Call) and ast.unparse(x.func) not in _CONST_CTORS for e in node.value.values for x in ast.walk(e)):
+            pre, vals = [], []
+            k = next(_counter)
+            for k_, e in zip(node.value.keys, node.value.values):
+                nm = f"_{node.targets[0].id}{k}_{k_.value}"
+                pre.append(ast.copy_location(ast.Assign(targets=[ast.Name(id=nm, ctx=ast.Store())], value=e, lineno=node.lineno), node))
+                vals.append(ast.Name(id=nm, ctx=ast.Load()))
+            node.value = ast.Dict(keys=node.value.keys, values=vals)
             return pre + [node]
         # a, b, c = (E for _ in range(3))
         if len(node.targets) == 1 and isinstance(node.targets[0], (ast.Tuple, ast.List)) and isinstance(node.value, ast.GeneratorExp):
@@ -580,6 +694,17 @@ class Desugar(ast.NodeTransformer):
                     and not any(isinstance(x, ast.Call) and ast.unparse(x.func) not in ("range", "len", "product", "itertools.product", "zip", "enumerate") for x in ast.walk(it.args[0])):
                 node.iter = it = it.args[0]
                 fn = ast.unparse(it.func)
+            # for v in repeat(E, n)  ->  for _ in range(n) [v = E]        (E a name or literal: the same object every time)
+            if fn in ("repeat", "itertools.repeat") and len(it.args) == 2 and not it.keywords and isinstance(node.target, ast.Name) \
+                    and isinstance(it.args[0], (ast.Name, ast.Constant)):
+                used = any(isinstance(x, ast.Name) and x.id == node.target.id for s_ in node.body for x in ast.walk(s_))
+                rng = ast.Call(func=ast.Name(id="range", ctx=ast.Load()), args=[it.args[1]], keywords=[])
+                if not used:
+                    node.iter = ast.copy_location(rng, it)
+                    return node
+                k = next(_counter)
+                bind = ast.copy_location(ast.Assign(targets=[node.target], value=it.args[0], lineno=node.lineno), node)
+                return ast.copy_location(ast.For(target=ast.Name(id=f"_rp{k}", ctx=ast.Store()), iter=rng, body=[bind] + node.body, orelse=[], type_comment=None), node)
             # for cell in product(A, B)  ->  for _i in A: for _j in B: cell = (_i, _j); ..
             if fn in ("product", "itertools.product") and len(it.args) == 2 and not it.keywords and isinstance(node.target, ast.Name) and not _has_jump(node.body):
                 k = next(_counter)
@@ -872,6 +997,150 @@ def dtype_names(tree):
 
     R().visit(tree)
     return n[0]
+
+
+# ------------------------------------------------------------------------------------------- D14 self[k] through a forwarding __getitem__
+def inline_self_subscripts(tree):
+    """`self[K]` inside a class whose `__getitem__(self, k)` is a single `return E(self, k)`: that expression with k := K
+    (what the subscript evaluates by definition; K must be a name / attribute / literal so that it may be evaluated where E uses it)."""
+    n = 0
+    for cls in [x for x in tree.body if isinstance(x, ast.ClassDef)]:
+        gi = next((m for m in cls.body if isinstance(m, ast.FunctionDef) and m.name == "__getitem__" and not m.decorator_list), None)
+        if gi is None or len(gi.args.args) != 2 or gi.args.vararg or gi.args.kwarg or gi.args.defaults:
+            continue
+        body = [b for b in gi.body if not (isinstance(b, ast.Expr) and isinstance(b.value, ast.Constant))]
+        if len(body) != 1 or not isinstance(body[0], ast.Return) or body[0].value is None:
+            continue
+        sp, kp = gi.args.args[0].arg, gi.args.args[1].arg
+        expr = body[0].value
+        if any(isinstance(x, (ast.Lambda, ast.NamedExpr, ast.Yield, ast.Await)) for x in ast.walk(expr)):
+            continue
+        if sum(1 for x in ast.walk(expr) if isinstance(x, ast.Name) and x.id == kp) != 1:
+            continue
+        for m in cls.body:
+            if not isinstance(m, ast.FunctionDef) or m is gi or not m.args.args:
+                continue
+            me = m.args.args[0].arg
+            if any(isinstance(d, ast.Name) and d.id == "staticmethod" for d in m.decorator_list):
+                continue
+
+            class R(ast.NodeTransformer):
+                def visit_Subscript(self, node):
+                    self.generic_visit(node)
+                    if isinstance(node.ctx, ast.Load) and isinstance(node.value, ast.Name) and node.value.id == me and not isinstance(node.slice, ast.Slice) \
+                            and (isinstance(node.slice, (ast.Name, ast.Constant)) or (isinstance(node.slice, ast.Attribute) and isinstance(node.slice.value, ast.Name))):
+                        nonlocal n
+                        n += 1
+                        return ast.copy_location(_subst(expr, {sp: ast.Name(id=me, ctx=ast.Load()), kp: node.slice}), node)
+                    return node
+
+            R().visit(m)
+    # len(self) through a single-return __len__; in __eq__ also len(<other>) once <other> is known to be an instance of the class
+    for cls in [x for x in tree.body if isinstance(x, ast.ClassDef)]:
+        ln = next((m for m in cls.body if isinstance(m, ast.FunctionDef) and m.name == "__len__" and not m.decorator_list and len(m.args.args) == 1), None)
+        if ln is None:
+            continue
+        body = [b for b in ln.body if not (isinstance(b, ast.Expr) and isinstance(b.value, ast.Constant))]
+        if len(body) != 1 or not isinstance(body[0], ast.Return) or body[0].value is None or any(isinstance(x, (ast.Lambda, ast.NamedExpr)) for x in ast.walk(body[0].value)):
+            continue
+        sp = ln.args.args[0].arg
+        expr = body[0].value
+        for m in cls.body:
+            if not isinstance(m, ast.FunctionDef) or m is ln or not m.args.args or any(isinstance(d, ast.Name) and d.id == "staticmethod" for d in m.decorator_list):
+                continue
+            me = m.args.args[0].arg
+            who = {me}
+            if m.name == "__eq__" and len(m.args.args) == 2:
+                o = m.args.args[1].arg
+                if any(isinstance(c, ast.Call) and isinstance(c.func, ast.Name) and c.func.id == "isinstance" and len(c.args) == 2 and isinstance(c.args[0], ast.Name)
+                       and c.args[0].id == o and isinstance(c.args[1], ast.Name) and c.args[1].id == cls.name for c in ast.walk(m)) \
+                        and not any(isinstance(x, ast.Name) and x.id == o and isinstance(x.ctx, ast.Store) for x in ast.walk(m)):
+                    who.add(o)
+
+            class L(ast.NodeTransformer):
+                def visit_Call(self, node):
+                    self.generic_visit(node)
+                    if isinstance(node.func, ast.Name) and node.func.id == "len" and len(node.args) == 1 and not node.keywords and isinstance(node.args[0], ast.Name) \
+                            and node.args[0].id in who:
+                        nonlocal n
+                        n += 1
+                        return ast.copy_location(_subst(expr, {sp: ast.Name(id=node.args[0].id, ctx=ast.Load())}), node)
+                    return node
+
+            L().visit(m)
+    if n:
+        ast.fix_missing_locations(tree)
+    return n
+
+
+# ------------------------------------------------------------------------------------------- D15 local bytearray assembly
+def bytearray_assembly(tree):
+    """B = bytearray(E); B.append(k); B.extend(X); B += Y; .. len(B) .. bytes(B)     (B a local that is only built, measured and
+    finally frozen)   ==>   the same with an immutable value:  B = bytes(E); B = B + (the one byte k); B = B + X; .. len(B) .. B"""
+    n = 0
+    for fn in [x for x in ast.walk(tree) if isinstance(x, ast.FunctionDef)]:
+        cands = {}
+        for st in ast.walk(fn):
+            if isinstance(st, ast.Assign) and len(st.targets) == 1 and isinstance(st.targets[0], ast.Name) and isinstance(st.value, ast.Call) \
+                    and ast.unparse(st.value.func) == "bytearray" and len(st.value.args) <= 1 and not st.value.keywords:
+                cands.setdefault(st.targets[0].id, []).append(st)
+        for name, defs in cands.items():
+            if len(defs) != 1:
+                continue
+            stores = [x for x in ast.walk(fn) if isinstance(x, ast.Name) and x.id == name and isinstance(x.ctx, (ast.Store, ast.Del))]
+            if len(stores) != 1:
+                # an augmented assignment B += X stores too: allow those
+                if not all(any(isinstance(a, ast.AugAssign) and a.target is s_ for a in ast.walk(fn)) or s_ is defs[0].targets[0] for s_ in stores):
+                    continue
+            ok = True
+            muts, frozen, lens = [], [], []
+            parents = {}
+            for p_ in ast.walk(fn):
+                for c_ in ast.iter_child_nodes(p_):
+                    parents[id(c_)] = p_
+            for x in ast.walk(fn):
+                if not (isinstance(x, ast.Name) and x.id == name and isinstance(x.ctx, ast.Load)):
+                    continue
+                par = parents.get(id(x))
+                gp = parents.get(id(par)) if par is not None else None
+                ggp = parents.get(id(gp)) if gp is not None else None
+                if isinstance(par, ast.Attribute) and par.attr in ("append", "extend") and isinstance(gp, ast.Call) and gp.func is par and len(gp.args) == 1 and isinstance(ggp, ast.Expr):
+                    if par.attr == "append" and not (isinstance(gp.args[0], ast.Constant) and isinstance(gp.args[0].value, int) and 0 <= gp.args[0].value < 256):
+                        ok = False
+                    muts.append((ggp, par.attr, gp.args[0]))
+                elif isinstance(par, ast.Call) and isinstance(par.func, ast.Name) and par.func.id in ("len", "bytes") and len(par.args) == 1 and par.args[0] is x:
+                    (lens if par.func.id == "len" else frozen).append(par)
+                else:
+                    ok = False
+            if not ok or not frozen:
+                continue
+            # rewrite
+            d = defs[0]
+            d.value = ast.copy_location(ast.Call(func=ast.Name(id="bytes", ctx=ast.Load()), args=d.value.args, keywords=[]), d.value) if d.value.args else ast.Constant(value=b"")
+            if isinstance(d.value, ast.Call) and d.value.args and isinstance(d.value.args[0], ast.Call) and isinstance(d.value.args[0].func, ast.Attribute) and d.value.args[0].func.attr == "encode":
+                d.value = d.value.args[0]      # bytes(<str>.encode(..)) is that bytes object
+            repl = {}
+            for stmt, kind, arg in muts:
+                add = ast.Constant(value=bytes([arg.value])) if kind == "append" else arg
+                repl[id(stmt)] = ast.copy_location(ast.Assign(targets=[ast.Name(id=name, ctx=ast.Store())],
+                                                                value=ast.BinOp(left=ast.Name(id=name, ctx=ast.Load()), op=ast.Add(), right=add), lineno=stmt.lineno), stmt)
+            fz = {id(c) for c in frozen}
+
+            class R(ast.NodeTransformer):
+                def visit_Expr(self, node):
+                    return repl.get(id(node), node)
+
+                def visit_Call(self, node):
+                    self.generic_visit(node)
+                    if id(node) in fz:
+                        return ast.copy_location(ast.Name(id=name, ctx=ast.Load()), node)
+                    return node
+
+            R().visit(fn)
+            n += 1
+    if n:
+        ast.fix_missing_locations(tree)
+    return n
 
 
 # ------------------------------------------------------------------------------------------- D9 NamedTuple carriers
@@ -1214,11 +1483,25 @@ def seek_names(tree):
     return len(env)
 
 
+def operator_names(tree):
+    OPERATOR_NAMES.clear()
+    stored = {n.id for n in ast.walk(tree) if isinstance(n, ast.Name) and isinstance(n.ctx, ast.Store)}
+    for st in tree.body:
+        if isinstance(st, ast.ImportFrom) and st.module == "operator" and st.level == 0:
+            for a in st.names:
+                if (a.asname or a.name) not in stored:
+                    OPERATOR_NAMES[a.asname or a.name] = a.name
+
+
 def desugar_module(tree: ast.Module):
     seek_names(tree)
+    operator_names(tree)
+    collect_list_attrs(tree)
     MatchToIf().visit(tree)
     ast.fix_missing_locations(tree)
     inline_contextmanagers(tree)
+    inline_self_subscripts(tree)
+    bytearray_assembly(tree)
     dtype_names(tree)
     WalrusHoist().run(tree)
     WhileToFor().run(tree)
